@@ -6,6 +6,11 @@ cd /repo
 [ -z "$(git status --porcelain --untracked-files=no)" ] || { echo "repo dirty"; exit 2; }
 git apply --index "/verif/proposed_fixes/$slug.diff"
 # commit message: describe the code change only
-grep -v -i "^Found by \./check\|^shortest history:\|/verif\|replay" "$msg" > /tmp/applyfix.msg
+python3 - "$msg" > /tmp/applyfix.msg <<'PY'
+import sys, re
+paras = open(sys.argv[1]).read().strip().split('\n\n')
+keep = [p for p in paras if not re.match(r'\s*(Found by|shortest history)', p) and '/verif' not in p and 'clause|site' not in p]
+print('\n\n'.join(keep))
+PY
 git commit -q -F /tmp/applyfix.msg
 git log --oneline | head -1
